@@ -1,1 +1,38 @@
-fn main() { println!("ok"); }
+mod app;
+mod drive;
+mod dsl;
+mod legacy;
+
+use std::io::{BufRead, BufWriter, Write};
+
+fn main() {
+    std::panic::set_hook(Box::new(|_| {})); // panics in code under test are data
+    let args: Vec<String> = std::env::args().collect();
+    match args.get(1).map(String::as_str) {
+        Some("run") => {
+            // run <cases.ndjson> <trace.ndjson>
+            let inp = std::fs::File::open(&args[2]).expect("open cases");
+            let out = std::fs::File::create(&args[3]).expect("create trace");
+            let mut w = BufWriter::new(out);
+            let mut n = 0;
+            for line in std::io::BufReader::new(inp).lines() {
+                let line = line.unwrap();
+                if line.trim().is_empty() {
+                    continue;
+                }
+                let case: drive::Case = serde_json::from_str(&line).expect("bad case");
+                for l in drive::run_case(&case) {
+                    serde_json::to_writer(&mut w, &l).unwrap();
+                    w.write_all(b"\n").unwrap();
+                }
+                n += 1;
+            }
+            w.flush().unwrap();
+            eprintln!("ran {n} cases");
+        }
+        _ => {
+            eprintln!("usage: harness run <cases> <trace>");
+            std::process::exit(2);
+        }
+    }
+}
